@@ -168,7 +168,9 @@ class Ctx:
             res = list(ex.map(one, shards))
         for sh, vf, r in res:
             if r["rc"] != 0 or not os.path.exists(vf):
-                tail = "\n".join(r["out"].splitlines()[-40:])
+                lines = r["out"].splitlines()
+                first = next((n for n, ln in enumerate(lines) if "Error" in ln or "exception" in ln), max(0, len(lines) - 30))
+                tail = "\n".join(lines[first:first + 14] + ["..."] + lines[-12:])
                 raise MachineryError("trace validation %s on %s failed rc=%s (overflow / unconsumed trace / crash)\n%s"
                                      % (module, sh, r["rc"], tail))
             with open(vf) as f:
